@@ -373,7 +373,7 @@ func init() {
 		}
 		return withPolicies(tier, []reg.Job{{Part: "C12/closerace", Build: "instr", Args: map[string]string{"bound": "4"}, Shards: 16, BudgetS: 100, Label: "Close || ReadAt || third, db4"},
 			{Part: "C12/closefail", Build: "instr", Args: map[string]string{"bound": "3"}, Shards: 4, BudgetS: 100, Label: "Close whose request cannot be written (transient failure), db3"},
-			{Part: "C12/sharedpos", Build: "instr", Args: map[string]string{"bound": "4"}, Shards: 16, BudgetS: 100, Label: "Write/Read/Seek by goroutines sharing one File, db4"}}, func(reg.Job) bool { return true })
+			{Part: "C12/sharedpos", Build: "instr", Args: map[string]string{"bound": "3"}, Shards: 16, BudgetS: 100, Label: "Write/Read/Seek by goroutines sharing one File, db3"}}, func(reg.Job) bool { return true })
 	}
 	c12Prop.Rule += "; scheduled half: one File shared by three goroutines (Close || 3-chunk concurrent ReadAt || one of WriteAt, Stat, Truncate, a second Close, Read) against the permuting peer, all schedules with <= d deviations; " +
 		"oracle: each call returns its proper result or os.ErrClosed, exactly one CLOSE on the wire and nothing carrying the handle after it"
